@@ -12,7 +12,10 @@ META = {
             "changes, both as closed formulas and as a step-by-step transcription of promql/functions.go; TLC checks that the two "
             "agree on every explored (series, window, function) and that non-negative counters give non-negative rates, increase = "
             "rate x range, the offset law and bounds hold. Every explored case is emitted with its predicted output (presence and "
-            "exact value) and replayed as an instant query against a real TSDB with start-timestamp storage; presence is compared "
+            "exact value) and replayed as an instant query -- and, for the range configurations, as a range query whose every step is "
+            "compared with the prediction for that evaluation time (steps smaller and larger than the range, data holes, start "
+            "timestamps that change between windows; the spec models matrixIterSlice's window reuse, invariant WindowReuse) -- "
+            "against a real TSDB with start-timestamp storage; presence is compared "
             "exactly, values to 1e-9 relative, and increase = rate x range is also checked on the real answers.",
     "note": "Bounded: one float series of <=4 samples (<=5 by simulation) on a millisecond grid with spacing classes around the 1.1x "
             "threshold (+-1 ms), small integer values, NaN, resets first/last, 8 start-timestamp patterns. Exact ties of the "
@@ -25,7 +28,7 @@ META = {
     "level": "model_checking",
 }
 
-QUICK = ["MC_quick_spacing.cfg", "MC_quick_values.cfg", "MC_quick_st.cfg"]
+QUICK = ["MC_quick_spacing.cfg", "MC_quick_values.cfg", "MC_quick_st.cfg", "MC_quick_range.cfg"]
 BIG = ["MC_big.cfg"]
 
 
@@ -46,7 +49,7 @@ def run(ctx):
     def one(cfg):
         return cfg, ctx.tlc("promql_rate", "RateFns", cfg, workers=(3 if q else 4), timeout=1500)
 
-    with concurrent.futures.ThreadPoolExecutor(max_workers=3) as ex:
+    with concurrent.futures.ThreadPoolExecutor(max_workers=4) as ex:
         for cfg, mc in ex.map(one, cfgs):
             ctx.account(mc)
             behs += mc.emitted
